@@ -677,12 +677,12 @@ theorem adj_mem : ∀ (ext : List Ev) (v : Nat), Adj ext → Ev.wfail v ∈ ext 
 theorem nTo_append (a b : List Ev) (o v : Nat) : nTo (a ++ b) o v = nTo a o v + nTo b o v := by
   unfold nTo; rw [List.countP_append]
 
-theorem closeCnt_append (a b : List Ev) (v : Nat) : closeCnt (a ++ b) v = closeCnt a v + closeCnt b v := by
+theorem closeCnt_app (a b : List Ev) (v : Nat) : closeCnt (a ++ b) v = closeCnt a v + closeCnt b v := by
   unfold closeCnt; rw [List.countP_append]
 
 /-- a connection the Spec counts as an observer of the departures in `evs` can take a CLIENT_CLOSED frame when the
     events are over: it is simulated by a table entry before, it is not failing, and it is not closed in between -/
-theorem obs_stable {cfg : Cfg} {a0 X : A} {s0 s2 : State} (hs : Sim cfg a0 s0) (ao : AllOpen s0) (n : Nest s0 s2)
+theorem obs_stable {cfg : Cfg} {a0 X : A} {s0 s2 : State} (hs : SimM cfg a0 s0) (ao : AllOpen s0) (n : Nest s0 s2)
     (evs : List Ev) (he : s2.out = s0.out ++ evs) (hm : X.mods = a0.mods) (hw : X.w = a0.w) (hf : X.fail = a0.fail)
     (o : AMod) (ho : o ∈ X.mods) (hob : Spec.isObserver cfg X evs o = true) : Stable cfg s2 o.uid := by
   unfold Spec.isObserver at hob
@@ -733,7 +733,7 @@ theorem obs_stable {cfg : Cfg} {a0 X : A} {s0 s2 : State} (hs : Sim cfg a0 s0) (
       rw [hlg, ← hsm.isLogger]; exact h
 
 /-- **The C07 clauses of `checkDepartures` hold on what the model does in one stretch of events.** -/
-theorem dep_ext_core {cfg : Cfg} {a0 X : A} {s0 s2 : State} (hs : Sim cfg a0 s0) (ao : AllOpen s0) (n : Nest s0 s2)
+theorem dep_ext_core {cfg : Cfg} {a0 X : A} {s0 s2 : State} (hs : SimM cfg a0 s0) (ao : AllOpen s0) (n : Nest s0 s2)
     (j : J s2) (t : T s2) (evs : List Ev) (he : s2.out = s0.out ++ evs)
     (hm : X.mods = a0.mods) (hw : X.w = a0.w) (hf : X.fail = a0.fail)
     (md : Option Nat) (d : DepE cfg md none s2 evs) (hmd : ∀ u, md = some u → Ev.close u ∈ evs) :
@@ -742,7 +742,7 @@ theorem dep_ext_core {cfg : Cfg} {a0 X : A} {s0 s2 : State} (hs : Sim cfg a0 s0)
     (fun o c f v hm' hb => (d.ntc o c f v hm' hb).resolve_left (by simp)) (fun v hv o ho hob hne => ?_)
   · have := j.phi v
     unfold phi at this
-    rw [he, closeCnt_append] at this
+    rw [he, closeCnt_app] at this
     omega
   · have hst := obs_stable hs ao n evs he hm hw hf o ho hob
     obtain ⟨c, f, hmem, hb⟩ := d.lb v hv o.uid hst hne
@@ -753,7 +753,7 @@ theorem dep_ext_core {cfg : Cfg} {a0 X : A} {s0 s2 : State} (hs : Sim cfg a0 s0)
     rw [he, nTo_append] at hle
     omega
 
-theorem removeModule_gone (cfg : Cfg) (fwd : Fwd) (s : State) (u : Nat) : (removeModule cfg fwd s u).find u = none := by
+theorem removeModule_none (cfg : Cfg) (fwd : Fwd) (s : State) (u : Nat) : (removeModule cfg fwd s u).find u = none := by
   unfold removeModule
   split
   · assumption
@@ -784,7 +784,7 @@ theorem untouched_after_close {s2 : State} (j : J s2) (pre R : List Ev) (u : Nat
   · subst x; rfl
   · have hns := j.ns u
     refine NS_split hns (pre ++ [Ev.close u]) R (by rw [he]; simp) ?_ e x
-    rw [closeCnt_append]
+    rw [closeCnt_app]
     have : 0 < closeCnt [Ev.close u] u := by unfold closeCnt; simp [isClose]
     omega
 
@@ -792,7 +792,7 @@ theorem OrdAll_of_perm {cfg : Cfg} (h : ∀ l : List Nat, (cfg.order l).Perm l) 
   fun l x hx => (h l).mem_iff.mpr hx
 
 /-- the same, from the simulation at the *end* of the stretch; `X` may count fewer connections as ready than `A2` -/
-theorem obs_stable_end {cfg : Cfg} {X A2 : A} {s2 : State} (hs : Sim cfg A2 s2) (ao : AllOpen s2) (evs : List Ev)
+theorem obs_stable_end {cfg : Cfg} {X A2 : A} {s2 : State} (hs : SimM cfg A2 s2) (ao : AllOpen s2) (evs : List Ev)
     (hlive : ∀ o ∈ X.mods, o.alive = true → Spec.subscribed o cfg.mtClosed = true →
       (Spec.closes evs).contains o.uid = false → A2.live o.uid = some o)
     (hw : ∀ u, u ∈ X.w → u ∈ A2.w) (hf : A2.fail = X.fail)
@@ -825,7 +825,7 @@ theorem obs_stable_end {cfg : Cfg} {X A2 : A} {s2 : State} (hs : Sim cfg A2 s2) 
     · right
       rw [← hsm.isLogger]; exact h
 
-theorem dep_ext_end {cfg : Cfg} {X A2 : A} {s2 : State} (hs : Sim cfg A2 s2) (ao : AllOpen s2) (j : J s2) (t : T s2)
+theorem dep_ext_end {cfg : Cfg} {X A2 : A} {s2 : State} (hs : SimM cfg A2 s2) (ao : AllOpen s2) (j : J s2) (t : T s2)
     (pre evs : List Ev) (he : s2.out = pre ++ evs)
     (hlive : ∀ o ∈ X.mods, o.alive = true → Spec.subscribed o cfg.mtClosed = true →
       (Spec.closes evs).contains o.uid = false → A2.live o.uid = some o)
@@ -836,7 +836,7 @@ theorem dep_ext_end {cfg : Cfg} {X A2 : A} {s2 : State} (hs : Sim cfg A2 s2) (ao
     (fun o c f v hm' hb => (d.ntc o c f v hm' hb).resolve_left (by simp)) (fun v hv o ho hob hne => ?_)
   · have := j.phi v
     unfold phi at this
-    rw [he, closeCnt_append] at this
+    rw [he, closeCnt_app] at this
     omega
   · have hst := obs_stable_end hs ao evs hlive hw hf o ho hob
     obtain ⟨c, f, hmem, hb⟩ := d.lb v hv o.uid hst hne
@@ -849,7 +849,7 @@ theorem dep_ext_end {cfg : Cfg} {X A2 : A} {s2 : State} (hs : Sim cfg A2 s2) (ao
 
 /-- the abstract state at the end is the one `applyDepartures` computes from a state with the same table as `X` -/
 theorem dep_ext_fin {cfg : Cfg} {T' : List String} {X0 X : A} {s2 : State} (pre evs : List Ev)
-    (hs : Sim cfg (Spec.applyDepartures X0 evs) s2) (ao : AllOpen s2) (j : J s2) (t : T s2) (he : s2.out = pre ++ evs)
+    (hs : SimM cfg (Spec.applyDepartures X0 evs) s2) (ao : AllOpen s2) (j : J s2) (t : T s2) (he : s2.out = pre ++ evs)
     (hX : Spec.CoreExt T' X0 X)
     (md : Option Nat) (d : DepE cfg md none s2 evs) (hmd : ∀ u, md = some u → Ev.close u ∈ evs) :
     Spec.ErrExt ["C14"] X (Spec.checkDepartures cfg X md evs) := by
@@ -866,7 +866,7 @@ theorem dep_ext_fin {cfg : Cfg} {T' : List String} {X0 X : A} {s2 : State} (pre 
 /-- a stretch of events in two parts (the accept branch, then — after the poll — the periodic section), each with its own
     simulation at its end; `X` counts as ready only what both count as ready -/
 theorem dep_ext_two {cfg : Cfg} {X A1 A2 : A} {s1 s2 : State} (pre0 e1 e2 : List Ev)
-    (hs1 : Sim cfg A1 s1) (ao1 : AllOpen s1) (hs2 : Sim cfg A2 s2) (ao2 : AllOpen s2) (j2 : J s2) (t2 : T s2)
+    (hs1 : SimM cfg A1 s1) (ao1 : AllOpen s1) (hs2 : SimM cfg A2 s2) (ao2 : AllOpen s2) (j2 : J s2) (t2 : T s2)
     (he2 : s2.out = pre0 ++ (e1 ++ e2))
     (hlive1 : ∀ o ∈ X.mods, o.alive = true → Spec.subscribed o cfg.mtClosed = true →
       (Spec.closes (e1 ++ e2)).contains o.uid = false → A1.live o.uid = some o)
@@ -883,7 +883,7 @@ theorem dep_ext_two {cfg : Cfg} {X A1 A2 : A} {s1 s2 : State} (pre0 e1 e2 : List
     · exact Or.inr (List.mem_append.mpr (Or.inr ((d2.just v h).resolve_left (by simp))))
   · have := j2.phi v
     unfold phi at this
-    rw [he2, closeCnt_append] at this
+    rw [he2, closeCnt_app] at this
     omega
   · rcases List.mem_append.mp hm' with h | h
     · exact List.mem_append.mpr (Or.inl ((d1.ntc o c f v h hb).resolve_left (by simp)))
